@@ -84,6 +84,16 @@ def check_credentials(req, realm, username=None):
     auth = req.authorization
     opaque = sha256(req.server_hostname.encode()).hexdigest()
 
+    required = ['uri', 'response']
+    if app.auth_qop:
+        required += ['nc', 'cnonce']
+    elif app.auth_algorithm.endswith('-sess'):
+        required.append('cnonce')
+    for key in required:
+        if key not in auth:
+            log.error('Digest: %s value not found', key)
+            return False
+
     if auth.get("algorithm") != app.auth_algorithm:
         log.error('Digest: algorithm %s not equal to %s',
                   auth.get("algorithm"), app.auth_algorithm)
@@ -111,10 +121,6 @@ def check_credentials(req, realm, username=None):
 
     if username and auth.get('username') != username:
         log.error('Digest: username not match.')
-        return False
-
-    if 'response' not in auth:
-        log.error('Digest: response value not found')
         return False
 
     password = app.auth_map.get(realm, {}).get(auth.get('username'))
